@@ -2,7 +2,7 @@
 
 from __future__ import annotations
 
-from ..driver import Driver, Facts, _leaves, atom, dyn_signature, integer_atom, leaf_key, rec_signature
+from ..driver import static_signature, Driver, Facts, _leaves, atom, dyn_signature, integer_atom, leaf_key, rec_signature
 from ..index import AnalysisError
 from ..poly import Rat
 from ..values import Obj, Raised, to_rat
@@ -113,6 +113,9 @@ def _reuse(ctx):
             if isinstance(r, Raised):
                 raise AnalysisError(f"{label} raises: {r}")
             outs.append((to_rat(r[0]).fmt(), dyn_signature(r[1])))
+            if tag == "pristine":
+                same_mat = static_signature(r[1]) == static_signature(arr)
+                ctx.ob("R6.4", f"{label}:returned-materials", same_mat, "the container a run returns carries the caller's material arrays unchanged (inverse permittivity / permeability, both conductivities, dispersive coefficients): a later run from it simulates the same medium", [x for x, y in zip(static_signature(r[1]), static_signature(arr)) if x != y][:3], "same material arrays")
         base = outs[0][1]
         if isinstance(base, tuple) and base and base[0] == "M":
             # fields advanced, detector states not recorded: every detector leaf must be zero, the fields a run over the zero state
@@ -136,6 +139,14 @@ def _reuse(ctx):
     r1 = d.call("fdtdx.fdtd.wrapper.run_fdtd", arr, _objects(), cfg, atom("key"), show_progress=False)
     r2 = d.call("fdtdx.fdtd.wrapper.run_fdtd", r1[1], _objects(), cfg, atom("key"), show_progress=False)
     ctx.ob("R6.3", "run_fdtd:rerun-on-returned-arrays", dyn_signature(r1[1]) == dyn_signature(r2[1]) and to_rat(r2[0]).equals(T), "running again from the arrays a run returned gives the identical token", str(dyn_signature(r2[1]))[:160], str(dyn_signature(r1[1]))[:160])
+    # the same through the reversible strategy (its result container is assembled by hand from the loop's outputs)
+    d = Driver(ctx, Facts([T - 2]), dispersive=False)
+    arr = d.arrays()
+    cfg = d.config(T, gradient=dict(method="reversible", num_checkpoints_reversible=1))
+    r1 = d.call("fdtdx.fdtd.wrapper.run_fdtd", arr, _objects(), cfg, atom("key"), show_progress=False)
+    r2 = d.call("fdtdx.fdtd.wrapper.run_fdtd", r1[1], _objects(), cfg, atom("key"), show_progress=False) if not isinstance(r1, Raised) else r1
+    ok_r = not isinstance(r2, Raised) and dyn_signature(r1[1]) == dyn_signature(r2[1]) and to_rat(r2[0]).equals(T)
+    ctx.ob("R6.3", "run_fdtd[reversible]:rerun-on-returned-arrays", ok_r, "running the reversible strategy again from the arrays it returned gives the identical token (same steps on the same materials)", str(r2)[:160] if isinstance(r2, Raised) else str(dyn_signature(r2[1]))[:160], str(dyn_signature(r1[1]))[:160] if not isinstance(r1, Raised) else str(r1))
     # without reset the partial run continues from what it is given
     d = Driver(ctx, Facts([T - 2, a, b - a, T - b]))
     arr = d.arrays(tag="used")
